@@ -15,6 +15,8 @@ Families
   longjump  loop / branch bodies approaching and exceeding the 18-bit jump range
   upvals    closures capturing many upvalues over several levels
   goto      goto / labels: forward, backward, continue, out of closures' scopes
+  manylocals one declaration introduces 100..2000 locals (no initialisers / one call / '...' /
+            generic for / parameter list): operand fields must not wrap
   vararg    vararg functions with 0..8 named parameters whose body only reads the implicit 'arg'
             local (R(NumParameters)) or never touches it
 """
@@ -624,6 +626,13 @@ def longjump_source(kind, n):
         return "local a, b, c = 1, 2, 3\n::s::\n" + body + "if a then goto s end\n"
     if kind == "andor":
         return "local a, b, c = 1, 2, 3\nlocal x = a and {" + "b + c, " * n + "1} or 2\n"
+    if kind == "nested_ifelse":
+        # the jump ending the inner 'then' lands on the jump ending the outer 'then': each spans n
+        # instructions (in range), both together 2n (jump-to-jump threading must not combine them blindly)
+        return ("local a, b, c = 1, 2, 3\nif a then\nif b then\nc = 1\nelse\n" + body + "end\nelse\n" + body + "end\nreturn c\n")
+    if kind == "nested_ifelse3":
+        return ("local a, b, c = 1, 2, 3\nif a then\nif b then\nif c then\nc = 1\nelse\n" + body + "end\nelse\n" + body +
+                "end\nelse\n" + body + "end\nreturn c\n")
     raise ValueError(kind)
 
 
@@ -634,9 +643,13 @@ def longjump_cases(full):
     """the body sizes straddle both ends of the sBx range (-131071..131072) for every kind of jump"""
     out = []
     if not full:
-        for k, n in (("while", 131060), ("while", 131069), ("numfor", 131075), ("goto_back", 131075), ("if", 131075)):
+        for k, n in (("while", 131060), ("while", 131069), ("numfor", 131075), ("goto_back", 131075), ("if", 131075),
+                     ("nested_ifelse", 70000)):
             out.append(("longjump", "%s/%d" % (k, n), {"kind": k, "n": n}))
         return out
+    for k, n in (("nested_ifelse", 70000), ("nested_ifelse", 65530), ("nested_ifelse", 65536), ("nested_ifelse", 65540),
+                 ("nested_ifelse", 100000), ("nested_ifelse3", 44000), ("nested_ifelse3", 60000)):
+        out.append(("longjump", "%s/%d" % (k, n), {"kind": k, "n": n}))
     for k in LONG_KINDS:
         sizes = list(range(131066, 131074))
         if k in ("while", "numfor"):
@@ -779,6 +792,47 @@ def vararg_cases(full):
 
 
 # --------------------------------------------------------------------------
+# manylocals: ONE declaration introduces N locals without writing each register individually
+# (LOADNIL B / CALL C / VARARG B / TFORLOOP C range operands are 9 bits wide, A is 8 bits)
+
+def manylocals_source(n, form, body):
+    names = ["a%d" % i for i in range(1, n + 1)]
+    lst = ", ".join(names)
+    b = ""
+    if body >= 1:
+        b = "a1 = 'first'\n" + ("a257 = 'other'\n" if n >= 257 else "") + "a%d = 'last'\n" % n
+    if body == 2:
+        b += "g = a%d\nlocal z = a1\nf(a%d, z)\n" % (n, max(1, n // 2))
+    if body == 3:       # a nested block closes while the locals are live
+        b += "do local q = a1 g = q end\nif a1 then g = a%d end\n" % n
+    if form == "nil":
+        src = "local " + lst + "\n" + b + "return a1\n"
+    elif form == "call":
+        src = "local " + lst + " = f()\n" + b + "return a1\n"
+    elif form == "vararg":
+        src = "local " + lst + " = ...\n" + b + "return a1\n"
+    elif form == "forin":
+        src = "for " + lst + " in it do\n" + b + "return a1\nend\n"
+    elif form == "params":
+        return "local function w(" + lst + ")\n" + b + "return a1\nend\nreturn w\n"
+    else:
+        raise ValueError(form)
+    return "local function w(...)\n" + src + "end\nreturn w\n"
+
+
+def manylocals_cases(full):
+    out = []
+    ns = [100, 190, 195, 197, 199, 200, 201, 255, 256, 257, 300, 511, 512, 513, 520, 600, 700, 1030]
+    if full:
+        ns += [196, 198, 254, 258, 510, 514, 767, 768, 769, 1023, 1024, 1025, 2000]
+    for n in ns:
+        for form in ("nil", "call", "vararg", "forin", "params"):
+            for body in ((0, 1, 2, 3) if full else (0, 1, 3)):
+                out.append(("manylocals", "%d/%s/%d" % (n, form, body), {"n": n, "form": form, "body": body}))
+    return out
+
+
+# --------------------------------------------------------------------------
 # rand: random compositions of the statement kinds (nesting, long bodies)
 
 def rand_source(seed, size):
@@ -822,6 +876,7 @@ def cases(tier, seed):
     out += upvals_cases(full)
     out += goto_cases()
     out += vararg_cases(full)
+    out += manylocals_cases(full)
     for i in range(1500 if full else 150):
         out.append(("rand", "%d" % i, {"seed": seed * 100000 + i, "size": rng.choice([3, 6, 12, 25])}))
     return out
@@ -844,6 +899,8 @@ def source(fam, params):
         return longjump_source(params["kind"], params["n"])
     if fam == "upvals":
         return upvals_source(params["n1"], params["n2"], params["n3"], params["mode"])
+    if fam == "manylocals":
+        return manylocals_source(params["n"], params["form"], params["body"])
     if fam == "vararg":
         return vararg_source(params["np"], params["use"], params["form"], params["locals"], params.get("dots", True))
     if fam == "goto":
